@@ -181,6 +181,98 @@ async fn run(name: &str) -> Result<(), String> {
             let _ = std::fs::remove_dir_all(&dir);
             if done.is_err() { Err("main task still running 10 s after a handler deleted its job and asked for a graceful quit (grace 1 s)".into()) } else { Ok(()) }
         }
+        // C01 / C02 / C15 (BOUNDED: 3 seeded streams of 80 events, every priority, pass / reject / error verdicts, empty events, gaps from 0 to 2 x throttle):
+        // each accepted (or urgent, or empty) event reaches the action handler in exactly one batch, no rejected one does, no batch is empty, a batch
+        // without an urgent event is not delivered before the throttle has passed since its earliest event was sent, and each filter error reaches
+        // the error handler exactly once
+        "event_stream_c01" | "event_stream_c02" | "event_stream_c15" => {
+            let (c01, c02, c15) = (name.ends_with("c01"), name.ends_with("c02"), name.ends_with("c15"));
+            use std::sync::Mutex;
+            use std::time::Instant;
+            use watchexec_events::{Event, Priority, Tag};
+            use watchexec::{error::RuntimeError, filter::Filterer};
+            #[derive(Debug)] struct F;
+            #[derive(Debug)] struct FErr(u32);
+            impl std::fmt::Display for FErr { fn fmt(&self, f: &mut std::fmt::Formatter<'_>) -> std::fmt::Result { write!(f, "verdict error {}", self.0) } }
+            impl std::error::Error for FErr {}
+            fn id_of(e: &Event) -> Option<u32> {
+                e.tags.iter().find_map(|t| if let Tag::Process(p) = t { Some(*p) } else { None }).or_else(|| e.metadata.get("id").and_then(|v| v.first()).and_then(|s| s.parse().ok()))
+            }
+            impl Filterer for F {
+                fn check_event(&self, e: &Event, _p: Priority) -> Result<bool, RuntimeError> {
+                    let id = id_of(e).unwrap_or(0);
+                    match id % 5 { 1 => Ok(false), 3 => Err(RuntimeError::Filterer { kind: "vx", err: Box::new(FErr(id)) }), _ => Ok(true) }
+                }
+            }
+            let throttle = Duration::from_millis(120);
+            for seed in [1u64, 2, 3] {
+                let batches: Arc<Mutex<Vec<(Instant, Vec<Option<u32>>, bool)>>> = Arc::new(Mutex::new(vec![]));
+                let errs: Arc<Mutex<Vec<String>>> = Arc::new(Mutex::new(vec![]));
+                let b2 = batches.clone();
+                let wx = Watchexec::new(move |action| {
+                    let now = Instant::now();
+                    let ids: Vec<Option<u32>> = action.events.iter().map(id_of).collect();
+                    let quit = ids.contains(&Some(999_999));
+                    b2.lock().unwrap().push((now, ids, quit));
+                    let mut action = action; if quit { action.quit(); } action
+                }).map_err(|e| e.to_string())?;
+                wx.config.throttle(throttle);
+                wx.config.filterer(F);
+                let e2 = errs.clone();
+                wx.config.on_error(move |hook: watchexec::ErrorHook| { e2.lock().unwrap().push(hook.error.to_string()); });
+                let main = wx.main();
+                tokio::time::sleep(Duration::from_millis(50)).await;
+                let mut rng = seed.wrapping_mul(0x9E37_79B9_7F4A_7C15) | 1;
+                let mut next = || { rng ^= rng << 13; rng ^= rng >> 7; rng ^= rng << 17; rng };
+                // id -> (send time, priority, empty)
+                let mut sent: Vec<(u32, Instant, Priority, bool)> = vec![];
+                for i in 1..=80u32 {
+                    let prio = match next() % 8 { 0 => Priority::Urgent, 1 | 2 => Priority::High, 3 => Priority::Low, _ => Priority::Normal };
+                    let empty = next() % 6 == 0;
+                    let ev = if empty { let mut m = std::collections::HashMap::new(); m.insert("id".to_string(), vec![i.to_string()]); Event { tags: vec![], metadata: m } }
+                             else { Event { tags: vec![Tag::Process(i)], metadata: Default::default() } };
+                    let t = Instant::now();
+                    wx.send_event(ev, prio).await.map_err(|e| e.to_string())?;
+                    sent.push((i, t, prio, empty));
+                    let gap = match next() % 6 { 0 | 1 => 0, 2 => 3, 3 => 30, 4 => 100, _ => 250 };
+                    if gap > 0 { tokio::time::sleep(Duration::from_millis(gap)).await; }
+                }
+                let accepted = |&(i, _, p, empty): &(u32, Instant, Priority, bool)| p == Priority::Urgent || empty || !(i % 5 == 1 || i % 5 == 3);
+                let errored = |&(i, _, p, empty): &(u32, Instant, Priority, bool)| p != Priority::Urgent && !empty && i % 5 == 3;
+                let want: Vec<u32> = sent.iter().filter(|s| accepted(s)).map(|s| s.0).collect();
+                let want_errs = sent.iter().filter(|s| errored(s)).count();
+                // wait (generously) until everything owed has arrived, then a little longer to see anything that should not
+                for _ in 0..200 {
+                    let n: usize = batches.lock().unwrap().iter().map(|b| b.1.len()).sum();
+                    if n >= want.len() && errs.lock().unwrap().len() >= want_errs { break; }
+                    tokio::time::sleep(Duration::from_millis(50)).await;
+                }
+                tokio::time::sleep(throttle * 3).await;
+                wx.send_event(Event { tags: vec![Tag::Process(999_999)], metadata: Default::default() }, Priority::Urgent).await.map_err(|e| e.to_string())?;
+                let _ = tokio::time::timeout(Duration::from_secs(10), main).await.map_err(|_| "the main task did not end 10 s after the handler asked to quit".to_string())?;
+                let batches = batches.lock().unwrap().clone();
+                let errs = errs.lock().unwrap().clone();
+                let mut seen: std::collections::HashMap<u32, usize> = Default::default();
+                for (k, (at, ids, _)) in batches.iter().enumerate() {
+                    if c01 && ids.is_empty() { return Err(format!("seed {seed}: the action handler was invoked with an empty batch (invocation {k})")); }
+                    for id in ids { let Some(id) = id else { if c01 { return Err(format!("seed {seed}: a batch holds an event that was never sent")); } else { continue; } }; if *id != 999_999 { *seen.entry(*id).or_default() += 1; } }
+                    let members: Vec<&(u32, Instant, Priority, bool)> = ids.iter().filter_map(|i| sent.iter().find(|s| Some(s.0) == *i)).collect();
+                    if c02 && !members.is_empty() && members.len() == ids.len() && members.iter().all(|m| m.2 != Priority::Urgent) {
+                        let first = members.iter().map(|m| m.1).min().unwrap();
+                        if at.duration_since(first) < throttle { return Err(format!("seed {seed}: the batch {ids:?} (no urgent event) was handed over {:?} after its earliest event was SENT: before the throttle of {throttle:?} had passed", at.duration_since(first))); }
+                    }
+                }
+                for s in &sent {
+                    let n = seen.get(&s.0).copied().unwrap_or(0);
+                    if c01 && accepted(s) && n != 1 { return Err(format!("seed {seed}: event {} (priority {:?}, empty {}, verdict {}) was handed to the action handler {n} times, expected exactly once", s.0, s.2, s.3, ["pass", "reject", "pass", "error", "pass"][(s.0 % 5) as usize])); }
+                    if c01 && !accepted(s) && n != 0 { return Err(format!("seed {seed}: event {} (priority {:?}) which the filter {} reached the action handler", s.0, s.2, if s.0 % 5 == 1 { "rejects" } else { "errors on" })); }
+                }
+                if c15 && errs.len() != want_errs { return Err(format!("seed {seed}: {} filter errors were raised but the error handler was called {} times: {:?}", want_errs, errs.len(), errs)); }
+                if c15 { for s in sent.iter().filter(|s| errored(s)) { let n = errs.iter().filter(|e| e.ends_with(&format!("verdict error {}", s.0))).count(); if n != 1 { return Err(format!("seed {seed}: the filter error of event {} reached the error handler {n} times", s.0)); } } }
+            }
+            let _ = std::fs::remove_dir_all(&dir);
+            Ok(())
+        }
         _ => Err(format!("unknown scenario {name}")),
     }
 }
